@@ -503,9 +503,17 @@ def check(prog, rep, tier):
         rs = [c for c in top if strip_epochs(c.atom)[0] == "ret" and strip_epochs(c.atom)[1].endswith("._is_run_or_cluster_start")]
         ct = [c for c in top if strip_epochs(c.atom)[0] == "cmp" and strip_epochs(c.atom)[3] == C(0) and strip_epochs(c.atom)[2][0] == "ret"
               and strip_epochs(c.atom)[2][1].endswith("Bitarray.check_bit") and strip_epochs(c.atom)[2][3][0] == ("f", SELF, "_is_continuation", 0)]
-        if not rs:
+        # "heads its run" may also be read off the removed element's own continuation bit (a stored element that is not a continuation is
+        # a run start): the test on the looked-up slot itself stands for the predicate, the test on another slot is the one about the next
+        def at_found(c):
+            ix = strip_epochs(c.atom)[2][3][1]
+            return ix[0] == "ret" and ix[1].endswith("._contained_at_loc")
+        own = [c for c in ct if at_found(c)]
+        ct = [c for c in ct if not at_found(c)]
+        if not rs and not own:
             continue
-        solo = rs[0].truth and bool(ct) and ((strip_epochs(ct[0].atom)[1] == "==") == ct[0].truth)
+        heads = rs[0].truth if rs else ((strip_epochs(own[0].atom)[1] == "==") == own[0].truth)
+        solo = heads and bool(ct) and ((strip_epochs(ct[0].atom)[1] == "==") == ct[0].truth)
         clears = [e for e in p.events if e.kind == "call" and e.target is not None and e.recv is not None and strip_epochs(e.recv) == ("f", SELF, "_is_occupied", 0)
                   and ((e.target.src_name == "__setitem__" and [strip_epochs(a) for a in e.args] == [qp, C(0)]) or (e.target.src_name == "clear_bit" and [strip_epochs(a) for a in e.args] == [qp]))]
         if solo:
@@ -585,13 +593,31 @@ def check(prog, rep, tier):
         rep.bad("C04.reinsert-all", f"{CTX}.resize", "nothing re-inserted", "resize replaces the arrays and never re-inserts the stored hashes", rz.where())
     mg = prog.method(CTX, "merge")
     okm = False
+    lazy = None
     for p in paths(prog, CTX, mg, force_inline=new_private):
         for e in p.events:
             if e.kind == "call" and e.target is not None and e.target.src_name in ("add_alt", "_add") and e.loops and e.args and not e.d.get("inlined"):
                 a = hash_of(strip_epochs(e.args[0]))
-                okm = okm or (a[0] == "it" and a[2][0] == "ret" and a[2][1].endswith(".hashes") and a[2][3] == (("p", "second"),))
-    if okm:
-        rep.ok("C04.reinsert-all", f"{CTX}.merge: every hash of second.hashes() is added")
+                dom = a[2] if a[0] == "it" else None
+                materialised = False
+                while dom is not None and dom[0] == "call" and dom[1] in (("g", "list"), ("g", "tuple"), ("g", "sorted")) and len(dom[2]) == 1:
+                    dom, materialised = dom[2][0], True
+                whole = dom is not None and dom[0] == "ret" and dom[1].endswith((".hashes", ".get_hashes")) and dom[3] == (("p", "second"),)
+                okm = okm or whole
+                # the walk is over a LIVE generator of the operand's table while the loop inserts into the receiver: if the operand is the
+                # receiver itself, an insertion that resizes replaces the table under the generator (D15).  A list is a snapshot; so is
+                # any walk made on a path that has excluded `second is self`
+                if whole and not materialised and dom[1].endswith(".hashes") and e.recv == SELF:
+                    distinct = any(a_ in (("cmp", "isnot", ("p", "second"), SELF), ("cmp", "isnot", SELF, ("p", "second"))) for a_ in true_atoms(p))
+                    if not distinct:
+                        lazy = lazy or e
+    if okm and lazy is not None:
+        rep.bad("C04.reinsert-all", f"{CTX}.merge", "operand walked lazily while the receiver is changed",
+                "merge inserts into the receiver while walking second.hashes(), a generator over the operand's live table, on a path that has not excluded second is self: "
+                "merging a filter into itself at the load limit resizes the table under the generator (quotient 3, auto_expand on, 7 hashes, qf.merge(qf): elements_added "
+                "becomes 8 and a hash that was never added is reported present)", lazy.where())
+    elif okm:
+        rep.ok("C04.reinsert-all", f"{CTX}.merge: every hash of the operand is added, from a snapshot of its hashes")
     else:
         rep.bad("C04.reinsert-all", f"{CTX}.merge", "merge loop", "merge does not add every hash yielded by second.hashes()", mg.where())
     metadata_definition_rule(prog, rep)
@@ -827,14 +853,52 @@ def removal_walks_rule(prog, rep):
                 if index_cmp(a) and not c.loops and ((a[1] == "!=" and not c.truth) or (a[1] == "==" and c.truth)) and p.exit and p.exit[0] == "return":
                     bounded_exits.append((p, i))
     if bounded_exits:
-        # the pass that re-marks the elements which moved into their own slot: some loop body with metadata stores after the bounded exit
-        ok = any(any(meta_store(e) and e.loops and e.ncond > i for e in p.events) for (p, i) in bounded_exits)
+        # the pass that re-marks the elements which moved into their own slot: some loop body with metadata stores after the bounded exit -
+        # in a loop that is not provably empty in exactly that case (its range decided under the equality the exit has established)
+        from ..expr import mapx, renorm
+
+        def runs(p, i):
+            a = strip_epochs(p.conds[i].atom)
+            x, y = a[2], a[3]
+            for e in p.events:
+                if not (meta_store(e) and e.loops and e.ncond > i):
+                    continue
+                lid = e.loops[-1]
+                doms = {strip_epochs(n[2]) for ev in p.events if lid in ev.loops for v in ev.d.values() if isinstance(v, tuple)
+                        for n in walk(v) if isinstance(n, tuple) and n and n[0] in ("it", "ix") and len(n) == 3 and n[1] == lid}
+                empty = False
+                for dom in doms:
+                    if dom[0] == "call" and dom[1] == ("g", "range") and 1 <= len(dom[2]) <= 2:
+                        lo, hi = (C(0), dom[2][0]) if len(dom[2]) == 1 else dom[2]
+
+                        def eq(v):
+                            v = mapx(strip_epochs(v), lambda n: x if n == y else None)
+                            # comparisons of a term with itself are decided
+                            v = mapx(v, lambda n: C(n[1] in ("==", "<=", ">=")) if (n[0] == "cmp" and n[1] in ("==", "!=", "<", "<=", ">", ">=") and n[2] == n[3]) else None)
+                            return renorm(v)
+                        if canon(eq(lo)) == canon(eq(hi)):
+                            empty = True
+                        elif __import__("os").environ.get("VA_DEBUG_WALK"):
+                            print("DEBUG nonempty", nshow(eq(lo))[:150], "|", nshow(eq(hi))[:300])
+                if not empty:
+                    return True
+                seen_loop[0] = True
+            return False
+        seen_loop = [False]
+        verdicts = []
+        for (p, i) in bounded_exits:
+            seen_loop[0] = False
+            r_ = runs(p, i)
+            verdicts.append((r_, seen_loop[0]))
+        # some path must run the pass; and no path may reach a pass whose range is empty in exactly this case (the walker cannot decide
+        # the emptiness of a range and walks the body anyway: that path stands for the executions that skip it)
+        ok = any(r_ for r_, _ in verdicts) and not any((not r_) and sl for r_, sl in verdicts)
         if ok:
             rep.ok("C04.remove-terminates", "a walk that ended at the cluster's own start is followed by a pass over the cluster that stores metadata")
         else:
             p0 = bounded_exits[0][0]
             rep.bad("C04.remove-terminates", f"{CTX}._remove_element", "no re-marking pass after a whole-table walk",
-                    "when the shifting walk ends at the cluster's own start (the cluster fills the whole table) no later loop stores metadata on any path: the elements that "
+                    "when the shifting walk ends at the cluster's own start (the cluster fills the whole table) no later loop stores metadata - on no path, or only in a loop whose range is empty in exactly that case: the elements that "
                     "moved into their own slot stay marked as shifted, and later look-ups, removals and hashes() decode the table wrongly", f.where())
     if not judged:
         raise AnalysisError("anchor vanished: _remove_element has no cyclic walk over the metadata bits")
@@ -961,6 +1025,13 @@ from ..selftest import Mutant, del_stmt, insert_stmt, replace_expr, replace_stmt
 
 _Q = "quotientfilter/quotientfilter.py"
 MUTANTS = [
+    Mutant("D15 re-introduced: merge walks the operand's generator while inserting", _Q,
+           replace_expr("QuotientFilter", "merge", "second.get_hashes()", "second.hashes()"), rule="C04.reinsert-all"),
+    Mutant("merge walks the generator after excluding the self-merge (same result)", _Q, seq(
+        replace_expr("QuotientFilter", "merge", "second.get_hashes()", "second.hashes()"),
+        insert_stmt("QuotientFilter", "merge", "if second is self:\n    return", before="for _h in")), expect="silent"),
+    Mutant("merge snapshots with list(second.hashes()) (same result)", _Q,
+           replace_expr("QuotientFilter", "merge", "second.get_hashes()", "list(second.hashes())"), expect="silent"),
     Mutant("occupied test hoisted from the lookup into check_alt, add_alt and remove_alt (same behaviour)", _Q, seq(
         del_stmt("QuotientFilter", "_contained_at_loc", "if self._is_occupied[q] == 0"),
         replace_stmt("QuotientFilter", "check_alt", "return not self._contained_at_loc(", "if self._is_occupied[key_quotient] == 0:\n    return False\nreturn not self._contained_at_loc(key_quotient, key_remainder) == -1"),
